@@ -55,6 +55,11 @@ func loadEngine(dir string) (*Engine, error) {
 	e.bvFiles = map[string]bool{}
 	e.specDefs = map[string]*SpecDef{}
 	e.ghostFns = map[string]*GhostFn{}
+	if !noRenames {
+		if b, err := loadBaseline(); err == nil {
+			e.baseClosures = b.Closures
+		}
+	}
 	e.collectFunctions()
 	e.capturedNames = map[string]bool{}
 	e.spawningFns = map[string]bool{}
@@ -103,8 +108,22 @@ func (e *Engine) addFunc(fn *ssa.Function, name string) {
 	}
 	e.funcs[name] = fn
 	e.fnName[fn] = name
-	for _, af := range fn.AnonFuncs {
+	var aligned []string
+	if base := e.baseClosures[name]; len(base) > 0 {
+		var cur []string
+		for _, af := range fn.AnonFuncs {
+			cur = append(cur, closureKey(af))
+		}
+		if al, changed := alignClosures(base, cur); changed {
+			aligned = al
+			e.renameNotes = append(e.renameNotes, fmt.Sprintf("%s: function literals were inserted or removed since the baseline; the remaining ones keep their baseline names (%s)", name, strings.Join(al, " ")))
+		}
+	}
+	for i, af := range fn.AnonFuncs {
 		suffix := strings.TrimPrefix(af.Name(), fn.Name())
+		if aligned != nil {
+			suffix = aligned[i]
+		}
 		e.addFunc(af, name+suffix)
 	}
 }
